@@ -178,6 +178,9 @@ func loadDeb(archive *Ar) (*Deb, error) {
 		if err != nil {
 			return nil, err
 		}
+		if _, dup := contents[member.Name]; dup {
+			return nil, fmt.Errorf("Archive contains more than one '%s' member", member.Name)
+		}
 		contents[member.Name] = member
 	}
 	member, ok := contents["debian-binary"]
@@ -206,6 +209,20 @@ func loadDeb(archive *Ar) (*Deb, error) {
 // Load a Debian 2.x series .deb - track down the control and data members.
 func loadDeb2(archive map[string]*ArEntry) (*Deb, error) {
 	ret := Deb{ArContent: archive}
+
+	/* Which member gets parsed, and which one gets checked by CheckDebsig,
+	 * must never be a matter of choice. */
+	for _, prefix := range []string{"control.", "data."} {
+		seen := 0
+		for name := range archive {
+			if strings.HasPrefix(name, prefix) {
+				seen++
+			}
+		}
+		if seen > 1 {
+			return nil, fmt.Errorf("Archive contains more than one '%s*' member", prefix)
+		}
+	}
 
 	if err := loadDeb2Control(archive, &ret); err != nil {
 		return nil, err
